@@ -175,6 +175,23 @@ pub fn gen_c14(rng: &mut Rng, thorough: bool) -> History {
         }
     }
     for _ in 0..n {
+        // the very same call again, or the same colour as the surface was just cleared to: the
+        // shaded source pixel then equals the destination pixel bit for bit
+        if rng.chance(1, 8) {
+            if let Some(last) = em.steps.last().map(|s| s.op.clone()) {
+                if last.is_draw() && !matches!(last, Op::PopLayer) {
+                    em.push(0, last);
+                    continue;
+                }
+            }
+        }
+        if rng.chance(1, 10) {
+            let p = valid_pixel(rng);
+            let (a, r, g, b) = ((p >> 24) as u8, (p >> 16) as u8, (p >> 8) as u8, p as u8);
+            em.push(0, Op::Clear { argb: [a, r, g, b] });
+            em.push(0, Op::FillRect { rect: gen_int_rect_f(rng, w, h), src: SrcSpec::solid(a, r, g, b), opts: Opts { blend: BLEND_SRC_OVER, alpha: F(1.), aa: !rng.chance(1, 5) } });
+            continue;
+        }
         let op = match rng.below(10) {
             0..=4 => {
                 // integer rectangle: inside, partly and wholly off-surface, zero and negative sizes
